@@ -54,7 +54,12 @@ def invalid_listop(draw, spec):
 
 @st.composite
 def delete_edit(draw, spec):
-    names = sorted(n for n in G.live_names(spec))
+    # objects that a spare (not yet created) usage pattern will need are left alone
+    spare_refs = set()
+    for n, e in spec["objs"].items():
+        if e["cls"] == "UsagePattern" and n not in spec["system"]:
+            spare_refs.update([e["usage_journey"], e["network"], e["country"]] + list(e["devices"]))
+    names = sorted(n for n in G.live_names(spec) if n not in spare_refs)
     return dict(op="self_delete", obj=draw(st.sampled_from(names)))
 
 
@@ -89,6 +94,9 @@ def cases(draw, max_steps):
         hist.append(e)
         if e["op"] not in ("bad_listop", "self_delete", "cross_system"):
             cur = E.apply_spec(cur, e)
+        elif e["op"] == "self_delete" and not S.referrers(cur, e["obj"]):
+            cur = copy.deepcopy(cur)      # an unreferenced object really disappears
+            del cur["objs"][e["obj"]]
     return {"spec": spec, "id_seed": draw(st.integers(0, 2 ** 20)), "history": hist}
 
 
